@@ -214,6 +214,9 @@ func c11Worker(c *mc.Ctx) {
 	}
 	ng := c08Specs(true)
 	fams = append(fams, fam{"nongreedy", int64(len(ng)), func(i int64) *lexref.Spec { return ng[i].spec }, 0})
+	// repetitions of sequences of nullable terms (cycles of epsilon edges), rules that match the empty string included
+	nl := nullableLoopSpecs(c.Quick())
+	fams = append(fams, fam{"nullable-loops", int64(len(nl)), func(i int64) *lexref.Spec { return nl[i] }, 0})
 	for _, f := range fams {
 		n := f.size
 		if f.limit > 0 && f.limit < n {
